@@ -51,6 +51,31 @@ def check(rep, tier, seed):
         vcf = render_vcf(cols, recs)
         cut = vcf[:len(vcf) - 1 - rng.randrange(1, 4)]
         jobs.append((["create"] + cli_samples_arg(sm), cut)); mcases.append(None); metas.append(("truncated-last-line", len(recs), None))
+    # cohorts at the factorial-table seam (170/171 chromosomes) and of several hundred samples, with projection: the
+    # conservation law on the binary's own output (mass + skipped = records, all values finite)
+    cons_jobs, cons_meta = [], []
+    for n in ([85, 86, 87, 172, 560] if tier == "quick" else [84, 85, 86, 87, 88, 170, 171, 172, 173, 300, 560, 900]):
+        cols = ["s%d" % i for i in range(n)]
+        recs = [["0/1"] + ["0/0"] * (n - 1), ["1/1"] * (n - 1) + ["0/1"], ["0/1", "./."] + ["0/0"] * (n - 2), ["./."] * (n - 3) + ["0/1"] * 3,
+                [rng.choice(["0/0", "0/1", "1/1"]) for _ in cols], ["1/1"] + ["0/0"] * (n - 1)]
+        for m in (10, n, 2 * n - 2):
+            cons_jobs.append((["create", "--precision", "9", "--project-shape", str(m + 1)], render_vcf(cols, recs))); cons_meta.append((n, m, len(recs)))
+    for job, (rc, so, se), (n, m, nrec) in zip(cons_jobs, run_cli_many(cons_jobs, timeout=600), cons_meta):
+        rep.count("run-loop:large-cohort-conservation", "%d samples -> %d chromosomes" % (n, m), True)
+        parsed = parse_text_spectrum(so)
+        mm = re.search(r"Skipped (\d+)/(\d+) sites", se.decode(errors="replace"))
+        skipped = int(mm.group(1)) if mm else 0
+        good = rc == 0 and parsed is not None
+        if good:
+            try:
+                mass = sum(Fraction(t) for t in parsed[1])
+                good = abs(mass + skipped - nrec) <= Fraction(len(parsed[1]), 10**9) + Fraction(1, 10**6)
+            except ValueError:
+                good = False
+        if not good:
+            rep.fail(kind="property-oracle", cls="run-loop:large-cohort-conservation", case="%d samples, %d records, --project-shape %d" % (n, nrec, m + 1),
+                     argv=["sfs"] + job[0], stdin=job[1].decode()[:300000], observed={"rc": rc, "stdout": so.decode(errors="replace")[:200], "skipped": skipped},
+                     expected="finite values with mass + skipped = %d" % nrec, detail="mass + skipped != records (or non-finite values) for a cohort at the factorial-table seam / of hundreds of samples")
     exps = run_model([m for m in mcases if m is not None])
     it = iter(exps)
     exps = [next(it) if m is not None else None for m in mcases]
